@@ -76,7 +76,7 @@
 
 ; memb(d, off, n, r, x) <=> exists k in [0, n): normax(d[off+k], r) = x, in skolemised form:
 ; membw is the witness position (quantifier-free elimination rule) ...
-(lemma memb_elim (axiom) (eager)
+(lemma memb_elim (axiom) (eager) (schematic x)
   (vars (d (Array Int Int)) (off Int) (n Int) (r Int) (x Int))
   (hyp (memb d off n r x))
   (concl (and (<= 0 (membw d off n r x)) (< (membw d off n r x) n) (= (normax (select d (+ off (membw d off n r x))) r) x)))
@@ -84,7 +84,7 @@
   (trigger memb))
 
 ; ... and any position holding x establishes membership (introduction rule)
-(lemma memb_intro (axiom) (eager)
+(lemma memb_intro (axiom) (eager) (schematic x)
   (vars (d (Array Int Int)) (off Int) (n Int) (r Int) (x Int))
   (hyp true)
   (concl (forall ((k Int)) (=> (and (<= 0 k) (< k n) (= (normax (select d (+ off k)) r) x)) (memb d off n r x))))
@@ -174,3 +174,13 @@
   (concl (forall ((m Int)) (=> (and (<= 0 m) (< m n)) (<= (select a (+ off m)) (+ (- b n) m)))))
   (pattern (seqmarkb a off n b))
   (trigger seqmarkb))
+
+; two axis lists that agree position by position after normalisation have the same members
+(lemma memb_ext
+  (vars (d (Array Int Int)) (off Int) (n Int) (r Int) (e (Array Int Int)) (offe Int) (s Int) (x Int))
+  (hyp (forall ((k Int)) (=> (and (<= 0 k) (< k n)) (= (normax (select d (+ off k)) r) (normax (select e (+ offe k)) s)))))
+  (concl (= (memb d off n r x) (memb e offe n s x)))
+  (pattern (membext d off n r e offe s))
+  (schematic x)
+  (qpattern (memb d off n r x))
+  (trigger membext))
